@@ -85,6 +85,8 @@ class System(ListeningSystem):
 
     def __init__(self):
         self.msg = ''
+        # Every instance stores and deletes its own configuration files
+        self.obs_mode = list(self.obs_mode)
 
         # Status -1 -> board not available
         # Status >1 -> temp sensor not present (timeout)
